@@ -26,13 +26,17 @@ EXPLANATION = (
     'gathered local argmax) and a cold start has +inf distances so frame 0 is '
     'first; (D2) the main-loop guard is exactly the conjunction of the strict '
     'tests count < n_clusters and maxdist > dist_cutoff with maxdist '
-    'recomputed from the distances returned by the same trip; (D3) no name is '
+    'recomputed from the distances returned by the same trip, and on every '
+    'path into the loop the counted index list has one entry per centre '
+    '(cold: both empty; warm: one per supplied centre); (D3) no name is '
     'possibly unbound after a zero-trip loop (must-def dataflow over the CFG); '
     '(D4) on each of the four None/not-None input combinations the stopping '
     'criteria are non-None at the guard (nullness dataflow with branch '
     'pruning); (D5) the triangle-inequality shortcut recomputes frames with '
     'd > d(centre,new)/k, k<=2, seeds the candidate with a COPY of the current '
-    'distances and commits through the same strict running-minimum mask. '
+    'distances and commits through the same strict running-minimum mask, and '
+    'measures d(centre,new) on the centres themselves (frames of the data '
+    'stand in for them only where kcenters makes every centre that frame). '
     'Optimality (2-approximation) and numeric equality of the two variants '
     'follow by a textbook argument and are not re-proved.')
 
@@ -1006,6 +1010,172 @@ def d2_guard(ck):
 
 
 # ---------------------------------------------------------------------------
+# D2 (warm start): the counted list has one entry per centre
+
+_LEN_WRAPPERS = ('list', 'tuple', 'np.array', 'np.asarray', 'np.asanyarray', 'numpy.array', 'numpy.asarray', 'sorted')
+_LEN_METHODS = ('tolist', 'copy', 'astype')
+
+
+def _length_of(e, depth=6):
+    """Symbolic LENGTH of a list/array valued expression (already expanded):
+    ('const', n) | ('len', <text of the sequence it is as long as>) |
+    ('labels', <call>)  - util.find_cluster_centers(labels, ...): one entry
+    per label that OCCURS in `labels` | None (not modelled)."""
+    if e is None or depth <= 0:
+        return None
+    if isinstance(e, (ast.List, ast.Tuple)):
+        if any(isinstance(x, ast.Starred) for x in e.elts):
+            return None
+        return ('const', len(e.elts))
+    if isinstance(e, ast.Name):
+        return ('len', e.id)
+    if isinstance(e, ast.ListComp):
+        if len(e.generators) == 1 and not e.generators[0].ifs and not e.generators[0].is_async:
+            return _length_of(e.generators[0].iter, depth - 1)
+        return None
+    if isinstance(e, ast.Call):
+        cn = call_name(e) or ''
+        if cn.split('.')[-1] == 'find_cluster_centers':
+            return ('labels', e)
+        if cn in ('list', 'tuple') and not e.args and not e.keywords:
+            return ('const', 0)
+        if cn in _LEN_WRAPPERS and len(e.args) >= 1 and not any(isinstance(a, ast.Starred) for a in e.args):
+            return _length_of(e.args[0], depth - 1)
+        if isinstance(e.func, ast.Attribute) and e.func.attr in _LEN_METHODS:
+            return _length_of(e.func.value, depth - 1)
+        if cn in ('range', 'np.arange', 'enumerate') and len(e.args) == 1 and not e.keywords:
+            a = e.args[0]
+            if cn == 'enumerate':
+                return _length_of(a, depth - 1)
+            b = match('len(_S)', a)
+            if b is not None:
+                return _length_of(b['_S'], depth - 1)
+            k = const_value(a)
+            if isinstance(k, int) and not isinstance(k, bool) and k >= 0:
+                return ('const', k)
+    return None
+
+
+def _labels_present_semantics(ck):
+    """util.find_cluster_centers returns one entry per DISTINCT label of its
+    first argument: the returned array is allocated with the size of
+    np.unique(<first parameter>).  True / None (not recognised)."""
+    from .cluster_common import CU
+    try:
+        mod = ck.repo.mod(CU)
+        fn = mod.func('find_cluster_centers')
+    except AnalysisIncomplete:
+        return None
+    fi = finfo(mod, fn)
+    P = params(fn)
+    rets = returns_of(fn)
+    if not P or len(rets) != 1 or not isinstance(rets[0].value, ast.Name):
+        return None
+    r = rets[0].value
+    for site in fi.defs_of_use(r):
+        v = fi.def_value(site, r.id) if site not in ('PARAM', 'UNBOUND') else None
+        if v is None:
+            return None
+        x = cx(fi.expand(v, strict=False))
+        ok = False
+        for pat in ('np.zeros_like(np.unique(_A))', 'np.empty_like(np.unique(_A))', 'np.zeros(len(np.unique(_A)), __)',
+                    'np.zeros(len(np.unique(_A)))', 'np.zeros(len(np.unique(_A)), dtype=__)', 'np.empty(len(np.unique(_A)), dtype=__)',
+                    'np.zeros(np.unique(_A).shape, dtype=__)', 'np.zeros(np.unique(_A).shape[0], dtype=__)',
+                    'np.zeros(np.unique(_A).size, dtype=__)', 'np.full(len(np.unique(_A)), __, dtype=__)',
+                    'np.zeros_like(np.unique(_A), dtype=__)', 'np.empty_like(np.unique(_A), dtype=__)'):
+            b = match(pat, x)
+            if b is not None and isinstance(b['_A'], ast.Name) and b['_A'].id == P[0]:
+                ok = True
+                break
+        if not ok:
+            return None
+    return True
+
+
+def _centres_role(K, mod):
+    """The list of centre OBJECTS of kcenters: the list the loop extends by
+    element 0 of this trip's iteration result; else the `centers=` field of
+    the returned result."""
+    fi, w, call = K['fi'], K['loop'], K['call']
+    for s in walk_local(w):
+        if isinstance(s, ast.Expr) and isinstance(s.value, ast.Call) and isinstance(s.value.func, ast.Attribute) \
+                and s.value.func.attr == 'append' and isinstance(s.value.func.value, ast.Name) and len(s.value.args) == 1 \
+                and isinstance(s.value.args[0], ast.Name):
+            a = s.value.args[0]
+            trip = _trip_bindings(fi, mod, w, call, a.id, 0)
+            if trip and fi.defs_of_use(a) <= set(trip):
+                return s.value.func.value.id
+    for r in returns_of(K['fn']):
+        if isinstance(r.value, ast.Call):
+            for k in r.value.keywords:
+                if k.arg == 'centers' and isinstance(k.value, ast.Name):
+                    return k.value.id
+    return None
+
+
+def _outer_defs(fi, mod, w, name):
+    return [d for d in fi.rd.defs_at(w, name) if d not in ('PARAM', 'UNBOUND') and not _inside(mod, d, w)]
+
+
+def d2_warm_count(ck):
+    """Entering the main loop, the list whose length the guard compares with
+    n_clusters (and whose length the iteration uses as the label of the new
+    centre) must have exactly one entry per centre chosen so far - on the
+    cold path (both empty) and on the warm path (one per supplied centre)."""
+    rule = 'C02.D2.guard.count.warm-start'
+    mod = ck.repo.mod(KC)
+    K = kcenters_roles(ck, rule, mod)
+    if K is None:
+        return
+    fi, w, L = K['fi'], K['loop'], K['L']
+    CEN = _centres_role(K, mod)
+    if CEN is None:
+        ck.missing(rule, 'the list of centre objects of kcenters (extended by the new centre every trip)')
+        return
+    dL = _outer_defs(fi, mod, w, L)
+    dC = _outer_defs(fi, mod, w, CEN)
+    if not dL or not dC or 'PARAM' in fi.rd.defs_at(w, L) or 'PARAM' in fi.rd.defs_at(w, CEN):
+        ck.missing(rule, 'definitions of `%s` / `%s` before the main loop' % (L, CEN))
+        return
+    n = 0
+    for sl in dL:
+        vl = fi.def_value(sl, L)
+        ll = _length_of(cx(fi.expand(vl, stop=(CEN,), strict=False))) if vl is not None else None
+        mates = [sc for sc in dC if fi.cfg.reachable(sc, sl, avoiding=[w]) or fi.cfg.reachable(sl, sc, avoiding=[w])]
+        if ll is None or not mates:
+            ck.missing(rule, 'length of the centre-index list defined by `%s`' % u(sl)[:100])
+            continue
+        for sc in mates:
+            vc = fi.def_value(sc, CEN)
+            lc = _length_of(cx(fi.expand(vc, strict=False))) if vc is not None else None
+            n += 1
+            if ll == ('len', CEN) or (lc is not None and lc[0] != 'labels' and ll == lc):
+                ck.ok(rule, mod, sl, '%s / %s' % (u(sl)[:80], u(sc)[:80]), 'one index per centre before the first trip')
+            elif ll[0] == 'labels' and lc is not None and lc != ('const', 0):
+                if _labels_present_semantics(ck) is None:
+                    ck.missing(rule, 'util.find_cluster_centers: length of the returned array not recognised as the number of distinct labels')
+                    continue
+                # the construct names the roles only (stable under renames / temporaries)
+                ck.bad(rule, mod, sl, 'kcenters',
+                       'warm start: the counted centre-index list has one entry per label that occurs, not one per supplied centre',
+                       'after a warm start `%s` (whose length the loop guard compares with n_clusters and the iteration uses as the '
+                       'label of the new centre) is built by find_cluster_centers from the labels: one entry per label that OCCURS. '
+                       'The centres are `%s` (one per supplied centre). A supplied centre that owns no frame (nearest to none, a '
+                       'duplicate, or - in mpi_mode - no frame on this rank) makes the count smaller than the number of centres: '
+                       'more centres than n_clusters are added, the new centre re-uses the label of a supplied one, and '
+                       'cc_dists[assignments] of the shortcut is indexed out of range' % (L, u(sc)[:80]))
+            elif lc is None:
+                ck.missing(rule, 'length of the centre list defined by `%s`' % u(sc)[:100])
+            elif ll[0] == 'const' and lc[0] == 'const':
+                ck.bad(rule, mod, sl, 'kcenters', '%s / %s' % (u(sl)[:80], u(sc)[:80]),
+                       'the centre-index list and the centre list start with different lengths (%d, %d): the guard does not '
+                       'count the centres' % (ll[1], lc[1]))
+            else:
+                ck.missing(rule, 'cannot relate the length of `%s` to the length of `%s`' % (u(sl)[:80], u(sc)[:80]))
+    ck.floor(rule, n, 2, 'definitions of the counted list reaching the main loop')
+
+
+# ---------------------------------------------------------------------------
 # D3
 
 def d3_unbound(ck):
@@ -1168,6 +1338,7 @@ def d5_triangle(ck):
     rule = 'C02.D5.triangle'
     mod = ck.repo.mod(KC)
     n = 0
+    sources = {}
     for q in ITER_FUNCS:
         fn = mod.func(q)
         fi = finfo(mod, fn)
@@ -1231,16 +1402,20 @@ def d5_triangle(ck):
             ck.decide(v, rule + '.threshold', mod, s, q, u(s), '',
                       'pruning threshold must be cc_dists[assignments] / k with k >= 2; found `%s`' % c)
         # --- cc = distances between the current centres and the new centre
+        cc0, cc_whole = [], []
         if q == '_kcenters_iteration':
+            # frame proxies: traj[center_inds] ARE the centres when every centre is the frame listed
+            # for it (established in kcenters, see _d5_centre_source)
             cc0 = ['%s[%s]' % (T, L), '%s[np.array(%s)]' % (T, L), '%s[list(%s)]' % (T, L)]
             cc_whole = ['%s(%s, %s)' % (DM, f, NEW) for f in cc0]
-        else:
+        if q != '_kcenters_iteration' or CS:
             X = CS or 'centers'
-            cc0 = ['np.array(%s)' % X, '%s.copy()' % X, 'np.asarray(%s)' % X, X]
-            cc_whole = ['%s(%s, %s)' % (DM, f, NEW) for f in cc0] + [
+            cen0 = ['np.array(%s)' % X, '%s.copy()' % X, 'np.asarray(%s)' % X, X]
+            cc_whole = cc_whole + ['%s(%s, %s)' % (DM, f, NEW) for f in cen0] + [
                 'np.array([%s(_C, %s).squeeze() for _C in %s])' % (DM, NEW, X),
                 'np.asarray([%s(_C, %s).squeeze() for _C in %s])' % (DM, NEW, X),
                 'np.array([%s(_C, %s) for _C in %s]).squeeze()' % (DM, NEW, X)]
+            cc0 = cc0 + cen0
         scope = {T, NEW, L, D, A} | ({CS} if CS else set()) | ({cc.id} if isinstance(cc, ast.Name) else set())
 
         def cc_verdict(x, cc_whole=cc_whole, cc0=cc0, scope=scope):
@@ -1253,6 +1428,7 @@ def d5_triangle(ck):
                         if b is not None:
                             return cls(b['_P'], [NEW], scope=scope)
             return v
+        srcs = []
         if isinstance(cc, ast.Name):
             ccorig = [o for o in origins(du_expand(fi, mcmp, stop=(cc.id,), inline=False), cc.id) if o is not None]
             sites = set()
@@ -1269,14 +1445,20 @@ def d5_triangle(ck):
                 verdict = cc_verdict(x)
                 if verdict[0] == 'match' and not is_new(site):
                     verdict = ('near', 1, None)
+                if verdict[0] == 'match':
+                    srcs.append((site, _cc_source_kind(x, T, L, CS), _none_guarded(fi, site, CS)))
                 ck.decide(verdict, rule + '.centre-dists', mod, site, q, u(site)[:160],
                           'centre-to-new-centre distances come from the current centres',
                           'cc_dists must be the distances between the current centres and the new centre')
         else:
             x = fi.expand(cc, stop=(NEW,)) if cc is not None else None
-            ck.decide(cc_verdict(x) if x is not None else 'far', rule + '.centre-dists', mod, s, q, u(cc),
+            verdict = cc_verdict(x) if x is not None else 'far'
+            if verdict[0] == 'match':
+                srcs.append((s, _cc_source_kind(x, T, L, CS), _none_guarded(fi, s, CS)))
+            ck.decide(verdict, rule + '.centre-dists', mod, s, q, u(cc),
                       'centre-to-new-centre distances come from the current centres',
                       'cc_dists must be the distances between the current centres and the new centre')
+        sources[q] = (srcs, R)
         # --- stores under the recompute mask
         mkey = fi.xu(mcmp, strict=False)
         st = [(a, t) for a, t in subscript_stores(fn) if isinstance(a, ast.Assign) and isinstance(t.value, ast.Name)
@@ -1359,6 +1541,154 @@ def d5_triangle(ck):
                       'plain branch computes every distance to the new centre into the same candidate',
                       'plain branch must assign %s(%s, %s) to `%s`' % (DM, T, NEW, pname))
     ck.floor(rule + '.threshold', n, 2, 'triangle-inequality sites')
+    _d5_centre_source(ck, rule + '.centre-source', mod, sources)
+
+
+def _cc_source_kind(x, T, L, CS):
+    """Where a recognised centre-to-new-centre distance computation takes the
+    CENTRES from: 'centres' (the list of centre objects handed in) or 'proxy'
+    (the frames of the data listed in the centre-index list)."""
+    nl = names_loaded(x)
+    if CS and CS in nl:
+        return 'centres'
+    if T in nl and L in nl:
+        return 'proxy'
+    return 'unknown'
+
+
+def _none_guarded(fi, site, CS):
+    """The statement executes only if the centre-list parameter is None."""
+    if not CS:
+        return False
+    for f in dominating_facts(fi, site):
+        e, pol = fact_expr(f)
+        if pol and ctext(e) == C('%s is None' % CS):
+            return True
+        if not pol and ctext(e) == C('%s is not None' % CS):
+            return True
+    return False
+
+
+def _kwargs_of_call(fi, mod, w, call, callee_name):
+    """Keyword arguments the main-loop call hands to the iteration function
+    `callee_name`: explicit keywords plus the literal dict(s) behind `**name`
+    that are defined in the same arm as the choice of that iteration function.
+    {key: value expr} or None (not resolvable)."""
+    out = {}
+    for k in call.keywords:
+        if k.arg is not None:
+            out[k.arg] = k.value
+    stars = [k.value for k in call.keywords if k.arg is None]
+    if not stars:
+        return out
+    # definition sites of the callee name that select this iteration function
+    csites = None
+    if isinstance(call.func, ast.Name) and call.func.id not in ITER_FUNCS:
+        csites = []
+        for d in fi.defs_of_use(call.func):
+            if d in ('PARAM', 'UNBOUND'):
+                return None
+            v = fi.def_value(d, call.func.id)
+            if isinstance(v, ast.Name) and v.id == callee_name:
+                csites.append(d)
+            elif isinstance(v, ast.IfExp):
+                return None
+    elif isinstance(call.func, ast.Name) and call.func.id != callee_name:
+        return None
+    for sv in stars:
+        if not isinstance(sv, ast.Name):
+            return None
+        for d in fi.defs_of_use(sv):
+            if d in ('PARAM', 'UNBOUND'):
+                return None
+            if csites is not None and not any(d is c or fi.cfg.reachable(c, d, avoiding=[w]) or fi.cfg.reachable(d, c, avoiding=[w])
+                                              for c in csites):
+                continue            # the dict of the other arm
+            v = fi.def_value(d, sv.id)
+            if isinstance(v, ast.Call) and call_name(v) == 'dict' and not v.args and all(k.arg for k in v.keywords):
+                for k in v.keywords:
+                    out[k.arg] = k.value
+            elif isinstance(v, ast.Dict) and all(isinstance(k, ast.Constant) and isinstance(k.value, str) for k in v.keys):
+                for k, val in zip(v.keys, v.values):
+                    out[k.value] = val
+            else:
+                return None
+        if fi._mutated_in_place(sv.id):
+            return None
+    return out
+
+
+def _d5_centre_source(ck, rule, mod, sources):
+    """The pruning bound d(centre, new centre)/2 is sound only if it is
+    measured from the CENTRES the current distances refer to.  An iteration
+    function that measures it on the frames traj[center_inds] relies on
+    `centers[j] is traj[center_inds[j]]` for every j; kcenters must establish
+    that on every path into the loop.  The warm start takes its centres from a
+    parameter (arbitrary observations) and only LOOKS UP near frames for the
+    index list: there the frames are proxies, not the centres."""
+    K = kcenters_roles(ck, rule, mod)
+    if K is None:
+        return
+    fi, w, call, T, L = K['fi'], K['loop'], K['call'], K['T'], K['L']
+    CEN = _centres_role(K, mod)
+    if CEN is None:
+        ck.missing(rule, 'the list of centre objects of kcenters (extended by the new centre every trip)')
+        return
+    for q, (srcs, R) in sorted(sources.items()):
+        if not srcs:
+            continue
+        if isinstance(call.func, ast.Name) and call.func.id in ITER_FUNCS and call.func.id != q:
+            continue
+        kw = _kwargs_of_call(fi, mod, w, call, q)
+        if kw is None:
+            ck.missing(rule, 'keyword arguments handed to %s by the main loop of kcenters' % q)
+            continue
+        CS = R['CS']
+        passed = CS is not None and CS in kw
+        if passed:
+            a = kw[CS]
+            if not (isinstance(a, ast.Name) and a.id == CEN):
+                ck.decide(cls(a, [CEN], scope={CEN, T, L}), rule, mod, call, 'kcenters', '%s=%s' % (CS, u(a)[:80]),
+                          '', 'the iteration must be handed the list of centre objects `%s`' % CEN)
+                continue
+        live = [(site, kind) for site, kind, guarded in srcs if not (passed and guarded)]
+        if any(kind == 'unknown' for _, kind in live):
+            ck.missing(rule, '%s: operands of the centre-to-new-centre distances not recognised' % q)
+            continue
+        proxies = [site for site, kind in live if kind == 'proxy']
+        if not proxies:
+            ck.ok(rule, mod, call, '%s(..., %s=%s)' % (q, CS, CEN),
+                  'the shortcut measures d(centre, new centre) on the centre objects themselves')
+            continue
+        # frames stand in for the centres: every definition of the centre list that reaches the loop must
+        # consist of exactly those frames
+        for sc in _outer_defs(fi, mod, w, CEN):
+            vc = fi.def_value(sc, CEN)
+            x = cx(fi.expand(vc, strict=False)) if vc is not None else None
+            if x is None:
+                ck.missing(rule, 'definition `%s` of the centre list' % u(sc)[:100])
+                continue
+            if _length_of(x) == ('const', 0):
+                ck.ok(rule, mod, sc, u(sc)[:100], 'cold start: no centres yet; every later centre is traj[<index appended for it>]')
+                continue
+            frames = ['%s[%s]' % (T, L), '[%s[_I] for _I in %s]' % (T, L), 'list(%s[%s])' % (T, L)]
+            v = classify(x, frames, scope={T, L})
+            if v[0] == 'match':
+                ck.ok(rule, mod, sc, u(sc)[:100], 'the centres are the frames listed in the centre-index list')
+                continue
+            foreign = sorted(nm for nm in names_loaded(x) if nm not in (T, L) and fi.rd.defs_at(sc, nm) == {'PARAM'})
+            if foreign:
+                ck.bad(rule, mod, proxies[0], q,
+                       'shortcut: centre-to-new-centre distances are measured on the frames listed in the centre-index list, '
+                       'while the warm start takes the centres from a parameter',
+                       'the pruning bound d(centre, new)/2 is computed from traj[center_inds] (%s). kcenters defines the centres '
+                       'as `%s` (parameter `%s`: arbitrary observations, not necessarily frames of the data) and only looks up '
+                       'the nearest frame for the index list, so after a warm start the frame is a proxy at a distance > 0 from '
+                       'its centre: the bound is wrong, frames are skipped that are closer to the new centre, and labels, '
+                       'distances, radius and the stopping point differ from the plain algorithm. The MPI iteration measures '
+                       'on the centre list itself' % (mod.loc(proxies[0]), u(sc)[:80], ', '.join(foreign)))
+            else:
+                ck.missing(rule, 'cannot tell whether the centres `%s` are the frames %s[%s]' % (u(sc)[:80], T, L))
 
 
 def _d5_guard(ck, rule, mod, q, s, facts, USE, A):
@@ -1416,6 +1746,7 @@ def _d5_guard(ck, rule, mod, q, s, facts, USE, A):
 def check(ck):
     d1_farthest(ck)
     d2_guard(ck)
+    d2_warm_count(ck)
     d3_unbound(ck)
     d4_criteria(ck)
     d5_triangle(ck)
